@@ -18,7 +18,7 @@
 (*    the events of some valid completion.                                                                   *)
 (* 4. The callback class of a number (ClassOK) and its value (JsonValue!NumOK).                              *)
 (* The design check (TokenEventsMC) ties 1, 2 and 3 together.                                                *)
-EXTENDS Integers, Sequences, FiniteSets, TLC
+EXTENDS Integers, Sequences, FiniteSets, TLC, SequencesExt
 JV == INSTANCE JsonValue WITH MaxLen <- 0, MaxDepth <- 100000, Alpha <- {}, st <- 0, hist <- 0
 
 \* ------------------------------------------------------------------ 1. events of a value
@@ -114,12 +114,11 @@ Docs(x) == DocsFrom(x, JV!GBom(x), <<>>)
 MStep(s, b) == IF s.pc = "Done" /\ b \notin JV!WS THEN JV!StartValue([s EXCEPT !.pc = "Top"], b)
                ELSE IF s.stack = <<>> /\ JV!NumEndOK(s.pc) /\ b \in JV!WS THEN [s EXCEPT !.pc = "Done"]
                ELSE JV!Step(s, b)
-MRun(x) == LET F[i \in 0..Len(x)] == IF i = 0 THEN JV!S0 ELSE MStep(F[i - 1], x[i]) IN F[Len(x)]
+MRun(x) == FoldLeft(MStep, JV!S0, x)
 \* first position at which the automaton is dead (0 = never)
-FirstDead(x) == LET F[i \in 0..Len(x)] == IF i = 0 THEN [s |-> JV!S0, at |-> 0]
-                                          ELSE IF F[i - 1].at # 0 THEN F[i - 1]
-                                          ELSE LET n == MStep(F[i - 1].s, x[i]) IN [s |-> n, at |-> IF JV!Dead(n) THEN i ELSE 0]
-                IN F[Len(x)].at
+FirstDead(x) == FoldLeft(LAMBDA acc, b : IF acc.at # 0 THEN acc
+                                         ELSE LET n == MStep(acc.s, b) IN [s |-> n, at |-> IF JV!Dead(n) THEN acc.i ELSE 0, i |-> acc.i + 1],
+                         [s |-> JV!S0, at |-> 0, i |-> 1], x).at
 MValid(x) == LET e == MRun(x) IN JV!Accepts(e) /\ FirstDead(x) = 0
 
 \* mutations of a valid base text x: [t |-> "none"] | [t |-> "cut", k] (keep the first k bytes) | [t |-> "swap", k, b] (byte k := b)
